@@ -1422,6 +1422,28 @@ func (ex *Exec) builtinAppend(st *State, instr ssa.Instruction, s *VSlice, morev
 				return &VSlice{Ref: s.Ref, Off: s.Off, Len: newLen, Cap: s.Cap, Elem: s.Elem}
 			}
 		}
+		if _, mok := more.Len.Int64(); !mok {
+			// an appended slice of symbolic length: with enough capacity Go still appends in place (the elements are
+			// moved as by copy(), i.e. read before anything is written - the two slices may overlap)
+			if ex.decide(st, Ge(s.Cap, newLen)) {
+				if !ex.decide(st, Eq(more.Len, IntLit(0))) {
+					ex.checkWritable(st, s.Ref, instr)
+				}
+				for _, lf := range leaves {
+					key := heapKey(s.Elem, lf)
+					h := st.heap(key, HeapOf(lf.Sort))
+					oldRow := Select(h, s.Ref)
+					moreRow := Select(h, more.Ref)
+					nrow := ex.fresh("approw", ArrayOf(lf.Sort))
+					k := Var("k!app", SInt)
+					lo := Idx(s.Off, s.Len)
+					st.assume(Forall([]*Term{k}, Implies(And(Le(IntLit(0), k), Lt(k, more.Len)), Eq(Select(nrow, Add(lo, k)), Select(moreRow, Idx(more.Off, k))))))
+					st.assume(Forall([]*Term{k}, Implies(Or(Lt(k, lo), Ge(k, Add(lo, more.Len))), Eq(Select(nrow, k), Select(oldRow, k)))))
+					st.heaps[key] = Store(h, s.Ref, nrow)
+				}
+				return &VSlice{Ref: s.Ref, Off: s.Off, Len: newLen, Cap: s.Cap, Elem: s.Elem}
+			}
+		}
 		ref := ex.allocRow(st, s.Elem)
 		for _, lf := range leaves {
 			key := heapKey(s.Elem, lf)
